@@ -33,6 +33,14 @@ THEOREMS = [
     "HedVerif.C20.valid_history_never_rejected",
     "HedVerif.C20.valid_text_never_rejected",
     "HedVerif.C20.classify_ok",
+    "HedVerif.C20.context_eq_validator_open_set",
+    "HedVerif.C20.ongoing_iff_last_onset",
+    "HedVerif.C20.seqOp_iff_last_onset",
+    "HedVerif.C20.run_iff",
+    "HedVerif.C20.rejects_iff_unmatched_offset",
+    "HedVerif.C20.duration_context_interval",
+    "HedVerif.C20.delay_shifts_start",
+    "HedVerif.C20.context_case_insensitive",
 ]
 BUDGET = {"quick": 900, "thorough": 3600}
 
@@ -286,6 +294,7 @@ def impl_run(rows, schema, dd):
         "base": list(em.base), "contexts": list(em.contexts),
         "hed": [str(h) for h in em.hed_strings],
         "events": [[e.start_index, e.end_index, str(e.contents)] for ev in em.event_list for e in ev],
+        "anchors": [[e.start_index, e.end_index, e.anchor] for ev in em.event_list for e in ev],
         "objs": objs, "typedefs": typedefs,
     }
 
@@ -430,6 +439,34 @@ def boundary_stats(ctx, rows):
                 ctx.count("inset-group")
 
 
+def validator_open_sets(rows, schema, dd):
+    """the real OnsetValidator run over the time points of the file (all groups effective at one time, joined):
+    (time, issues, set of open folded names after that time point)"""
+    from hed import HedString
+    from hed.validator.onset_validator import OnsetValidator
+    fr = frame_rows(rows)
+    ov, out = OnsetValidator(), []
+    for t in sorted({t for t, _ in fr}):
+        text = ", ".join(cell_text(i, d) for tt, its in fr if tt == t for i, d in its)
+        issues = ov.validate_temporal_relations(HedString(text, schema, dd)) if text else []
+        out.append((t, len(issues), set(ov._onsets.keys())))
+    return out
+
+
+def check_refinement(ctx, rows, obs, schema, dd):
+    """`context_eq_validator_open_set` on the two real implementations: the Onset processes the manager has
+    ongoing after a time point are the names the validator has open after it"""
+    on = obs["onsets"]
+    for t, nissues, open_ in validator_open_sets(rows, schema, dd):
+        i = on.index(t)
+        mine = {a[4:].casefold() for s, e, a in obs["anchors"] if a is not None and s <= i < e}
+        if nissues or mine != open_:
+            ctx.disagree("EventManager ongoing Onset processes = OnsetValidator open set (both real)", {"rows": rows},
+                         {"time": t, "validator_open": sorted(open_), "validator_issues": nissues}, sorted(mine))
+            return
+    ctx.count("refinement-checked-on-both-implementations")
+
+
 def check_file(ctx, rows, m, schema, dd, validate=False):
     case = {"rows": rows}
     ordered = all(a["time"] <= b["time"] for a, b in zip(rows, rows[1:]))
@@ -485,6 +522,8 @@ def check_file(ctx, rows, m, schema, dd, validate=False):
         ctx.count("type-filter-changes-an-entry")
     if any(obs["objs"][0][i] != obs["objs"][3][i] and obs["objs"][3][i] for i in range(n)):
         ctx.count("replace-defs-changes-an-entry")
+    if valid and ctx.evaluations % 3 == 0:
+        check_refinement(ctx, rows, obs, schema, dd)
     if validate and valid:
         from hed import TabularInput
         iss = TabularInput(rows_to_frame(rows), name="gen").validate(schema, extra_def_dicts=dd)
@@ -687,6 +726,11 @@ def run(ctx):
                 rows[i]["time"], rows[i + 1]["time"] = rows[i + 1]["time"], rows[i]["time"]
         elif r < 0.06:                             # an unmatched Offset (not a valid history; model/impl only)
             rows[ctx.rng.randrange(len(rows))]["items"].append(["offset", "C/9"])
+        elif r < 0.075:                            # validator errors the manager does not notice (model/impl only):
+            k2 = ctx.rng.randrange(len(rows))      # the same name twice in one row; an Inset without Onset
+            rows[k2]["items"] += ctx.rng.choice([[["onset", "C/7", 970 + k2, 1], ["onset", "c/7", 980 + k2, 0]],
+                                                 [["onset", "C/7", 970 + k2, 1], ["offset", "C/7"]],
+                                                 [["inset", "C/6", 990 + k2]]])
         elif r < 0.09:                             # groups the validator rejects (model/impl only)
             k2 = ctx.rng.randrange(len(rows))
             rows[k2]["items"].append(ctx.rng.choice([["onsetdur", "C/8", 8, 900 + k2],
